@@ -86,6 +86,25 @@ pub fn grid_of(rows: &[(String, Vec<String>)], noise: bool) -> Grid {
     Grid::make_from_dicts(dicts)
 }
 
+/// a taxonomy whose `is` chains are long: k0 <- k1 <- ... <- k(n-1), every 7th def with a second supertype on a
+/// side branch that rejoins the chain lower down, one undefined supertype, one conjunct at the bottom
+pub fn deep_rows(n: usize) -> Vec<(String, Vec<String>)> {
+    let mut rows: Vec<(String, Vec<String>)> = Vec::new();
+    for i in 0..n {
+        let mut is = Vec::new();
+        if i > 0 {
+            is.push(format!("k{}", i - 1));
+        }
+        if i % 7 == 6 {
+            is.push(format!("side{i}"));
+            rows.push((format!("side{i}"), vec![format!("k{}", i.saturating_sub(5)), "undef0".to_string()]));
+        }
+        rows.push((format!("k{i}"), is));
+    }
+    rows.push((format!("k{}-k{}", n - 1, n / 2), vec![format!("k{}", n - 1)]));
+    rows
+}
+
 fn leak(grid: Grid) -> &'static Namespace<'static> {
     Box::leak(Box::new(Namespace::make(grid)))
 }
@@ -189,6 +208,25 @@ pub fn rec(out: &mut Out, seed: u64, n_random: usize) -> Result<(), String> {
             }
         }
         out.emit(reflect_event(ns, &rec, &ask));
+    }
+    // deep taxonomies (chains of 40 and 90 links), asked leaves first on one cold namespace and roots first on another
+    for (n, leaves_first) in [(40usize, true), (90, true), (90, false)] {
+        let rows = deep_rows(n);
+        let grid = grid_of(&rows, false);
+        out.emit(load_event(&grid));
+        let ns = leak(grid);
+        let mut asked: Vec<String> = rows.iter().map(|r| r.0.clone()).collect();
+        asked.push("undef0".into());
+        if leaves_first {
+            asked.reverse();
+        }
+        for s in asked.iter() {
+            out.emit(query_event(ns, s, &asked));
+        }
+        let mut rec = Dict::new();
+        rec.insert(format!("k{}", n - 1), Value::Marker);
+        rec.insert(format!("k{}", n / 2), Value::Marker);
+        out.emit(reflect_event(ns, &rec, &asked));
     }
     // random acyclic taxonomies with multiple inheritance, undefined supertypes, conjuncts, feature keys
     for t in 0..n_random {
